@@ -463,4 +463,54 @@ theorem inv_chain (c : Cfg) (r : Req) (i : Inner) (hok : Inner.ok i = true) :
   · exact inv_log _ _ _ _ h4
   · exact h4
 
+/-! ### server state: the response does not depend on what earlier requests left behind -/
+
+theorem leak_nil (enc : Bool) (ops : List WOp) : leak [] enc ops = ops := by
+  induction ops with
+  | nil => rfl
+  | cons op ops ih =>
+    cases op with
+    | hdr c => simp [leak, ih]
+    | write c e => simp [leak]
+    | setCL v => simp [leak, ih]
+
+theorem templatesSt_clean (html : Bool) (i : Inner) : templatesSt [] html i = templatesW html i := by
+  unfold templatesSt
+  split <;> simp [leak_nil]
+
+theorem gzipSt_clean (b : Beh) : gzipSt [] b = gzipW b := by
+  unfold gzipSt; simp [leak_nil]
+
+/-- with the scratch objects cleared when they are taken, the response to a request is the one
+the stateless model computes, whatever state earlier requests left -/
+theorem serveSt_resp (c : Cfg) (r : Req) (i : Inner) (st : ServerState) :
+    (serveSt true c r i st).1 = serve c r i := by
+  unfold serveSt serve chain
+  simp only [takeClean, if_true, templatesSt_clean, gzipSt_clean]
+
+theorem serveAll_eq (c : Cfg) (st : ServerState) (reqs : List (Req × Inner)) :
+    serveAll c st reqs = reqs.map (fun q => serve c q.1 q.2) := by
+  induction reqs generalizing st with
+  | nil => rfl
+  | cons q qs ih =>
+    obtain ⟨r, i⟩ := q
+    unfold serveAll
+    simp only [List.map_cons]
+    rw [ih, serveSt_resp]
+
+theorem putBack_length (used : Bool) (leaves : List Chunk) (pool : List Pooled) :
+    (putBack used leaves pool).length = if used then max 1 pool.length else pool.length := by
+  unfold putBack
+  cases used
+  · simp
+  · cases pool <;> simp [getObj]
+
+theorem putBack_bounds (used : Bool) (leaves : List Chunk) (pool : List Pooled) :
+    pool.length ≤ (putBack used leaves pool).length ∧ (putBack used leaves pool).length ≤ max 1 pool.length := by
+  rw [putBack_length]
+  cases used <;> simp <;> omega
+
+theorem logAfter_bounds (logged : Bool) (n : Nat) : n ≤ logAfter logged n ∧ logAfter logged n ≤ n + 1 := by
+  unfold logAfter; cases logged <;> simp
+
 end Casket.Mw
